@@ -1233,7 +1233,11 @@ func (s *Sim) baseOpTable() []opEntry {
 			if s.R.Intn(2) == 0 {
 				s.paramChange("epochstorage", "EpochBlocks", fmt.Sprintf("\"%d\"", 2+s.R.Intn(30)))
 			} else {
-				s.paramChange("epochstorage", "EpochsToSave", fmt.Sprintf("\"%d\"", 1+s.R.Intn(10)))
+				n := 1 + s.R.Intn(10)
+				if s.R.Intn(8) == 0 {
+					n = []int{50, 100, 200}[s.R.Intn(3)] // a memory window longer than the chain is old
+				}
+				s.paramChange("epochstorage", "EpochsToSave", fmt.Sprintf("\"%d\"", n))
 			}
 		}},
 		{"conflict", s.opConflict},
